@@ -234,6 +234,58 @@ func extractShapes() {
 		}
 		addFact("ackTypeCheckedBeforeDelete", "Bool", boolLean(iGet >= 0 && iCmp > iGet && iDel > iCmp), "Ack compares the packet type before it removes the entry")
 	}
+	// --- ack/queue.go: the atomic-step decomposition the C20 resolution machine assumes
+	if fd := findFunc("wasp/ack/queue.go", "*queue", "Ack"); fd != nil {
+		st := allStmts(fd)
+		iDel, iGuard, iCb := -1, -1, -1
+		for i, s := range st {
+			if iDel < 0 && strings.Contains(s, "= q.msg.Delete(k)") {
+				iDel = i
+			}
+			if iDel >= 0 && iGuard < 0 && s == "if !ok" && i > iDel {
+				iGuard = i
+			}
+			if strings.HasPrefix(s, "msg.callback(") {
+				iCb = i
+			}
+		}
+		addFact("ackFiresOnlyIfClaimed", "Bool", boolLean(iDel >= 0 && iGuard > iDel && iCb > iGuard), "Ack returns unless its Delete succeeded, before it fires the callback")
+	}
+	if fd := findFunc("wasp/ack/queue.go", "*queue", "Expire"); fd != nil {
+		okShape := false
+		ast.Inspect(fd.Body, func(n ast.Node) bool {
+			is, ok := n.(*ast.IfStmt)
+			if ok && exprString(is.Cond) == "ok" {
+				ast.Inspect(is.Body, func(m ast.Node) bool {
+					if c, ok := m.(*ast.CallExpr); ok && exprString(c.Fun) == "msg.callback" {
+						okShape = true
+					}
+					return true
+				})
+			}
+			return true
+		})
+		cbOutside := false
+		for _, s := range fd.Body.List {
+			if strings.HasPrefix(stmtString(s), "msg.callback(") {
+				cbOutside = true
+			}
+		}
+		addFact("expireFiresOnlyIfClaimed", "Bool", boolLean(okShape && !cbOutside && anyMatch(allStmts(fd), `q\.msg\.Delete\(key\)`)), "Expire fires the callback only inside `if ok` of its Delete")
+	}
+	if fd := findFunc("wasp/ack/queue.go", "*queue", "push"); fd != nil {
+		st := allStmts(fd)
+		iPut, iIns := -1, -1
+		for i, s := range st {
+			if iPut < 0 && strings.Contains(s, "!q.msg.PutIfMissing(k, msg)") {
+				iPut = i
+			}
+			if iIns < 0 && strings.HasPrefix(s, "q.timeouts.Insert(") {
+				iIns = i
+			}
+		}
+		addFact("insertIsPutIfMissingThenTimer", "Bool", boolLean(iPut >= 0 && iIns > iPut), "push registers with PutIfMissing and inserts the timer only afterwards")
+	}
 	// --- nodes.go: wills of a failed node's sessions are published inside their mount point
 	if fd := findFunc("wasp/nodes.go", "*nodeMemberManager", "NotifyGossipLeave"); fd != nil {
 		pref := false
